@@ -330,6 +330,13 @@ def build_match(s, arms, guarded=False):
     if not guarded and arms and all(isinstance(v, tuple) and len(v) == 2 and v[0] == "tuple" for v in vals) and len({len(v[1]) for v in vals}) == 1 \
             and len(vals[0][1]) > 0:
         return ("tuple", [build_match(s, [(k, v[1][i]) for k, v in arms]) for i in range(len(vals[0][1]))])
+    if not guarded and len(arms) == 2 and isinstance(s, Poly):
+        by = {k.split(",")[0]: v for k, v in arms}
+        if set(by) == {"('Ok'", "('Err'"} and all(isinstance(v, tuple) and len(v) == 2 and v[0] == "bool" for v in by.values()) \
+                and by["('Ok'"][1] != by["('Err'"][1]:
+            # match r { Ok(_) => true, Err(_) => false } is r.is_ok()
+            t = app("std::result::Result::<T, E>::is_ok", s)
+            return t if by["('Ok'"][1] else app("not", t)
     if not guarded and len(arms) >= 2 and isinstance(s, Poly) and all(k.startswith("('") for k, _ in arms):
         p0 = single_atom(app("payload0", s))
         ep = app("either_payload", s)
@@ -821,8 +828,34 @@ class SymEval:
             return t
         return app("ite", c, t, e)
 
+    def opt_arms(self, s, arms_nodes, env, evalfn):
+        """match / if-let over an ("opt", o, v) value: arms [(pattern node, body node)] -> normal form over o, or None"""
+        from .tables import pat_key
+        src, val = s[1], s[2]
+        out = {}
+        for pat, body in arms_nodes:
+            key = pat_key(pat)
+            e2 = dict(env)
+            if isinstance(key, tuple) and len(key) == 2 and key[0] == "Some":
+                inner = pat.get("ps", [None])[0] if pat.get("k") == "ptstruct" else None
+                if inner is None:
+                    return None
+                self.bind(inner, val, e2)
+                out["some"] = evalfn(body, e2, (app("matches", src, self.SOME_KEY), True))
+            elif key == "None" or key == "_":
+                out["none"] = evalfn(body, e2, (app("matches", src, self.SOME_KEY), False))
+            else:
+                return None
+        if set(out) != {"some", "none"}:
+            return None
+        return build_match(src, [(self.SOME_KEY, out["some"]), (repr("None"), out["none"])])
+
     def e_match(self, n, env):
         s = self.eval(n["e"], env)
+        if isinstance(s, tuple) and len(s) == 3 and s[0] == "opt" and not any("guard" in a for a in n["arms"]):
+            r = self.opt_arms(s, [(a["pat"], a["body"]) for a in n["arms"]], env, lambda b, e2, g: self.eval(b, e2))
+            if r is not None:
+                return r
         # constant scrutinee: select the arm
         from .tables import pat_key, is_catch_all
         ck = const_key(s)
@@ -859,10 +892,69 @@ class SymEval:
             if name in ("max", "min") and len(args) == 2 and order_of(vkey(args[0])) > order_of(vkey(args[1])):
                 args = [args[1], args[0]]
             return app(name, *args)
+        ov = self.option_call(path, args)
+        if ov is not None:
+            return ov
         body = self.inline(inst or path) or self.inline(path)
         if body is not None and self.depth < self.max_depth and body.hir:
             return self.inline_body(body, args)
         return self.call_opaque(path, args)
+
+    # -- Option algebra -------------------------------------------------------------------------------------------
+    # ("opt", o, v): the optional value that is Some(v) exactly when the opaque option o is Some, and None otherwise.
+    # It lets o.map(f).unwrap_or(d), `if let Some(x) = o.map(f) {x} else {d}`, o.map_or(d, f) and match o {Some(p) => f(p), None => d}
+    # reach the same normal form  match(o, Some -> f(payload0 o), None -> d).
+    SOME_KEY = repr(("Some", "_"))
+
+    OK_KEY, ERR_KEY = repr(("Ok", "_")), repr(("Err", "_"))
+
+    def result_call(self, path, args):
+        """r.map_or(d, f) / r.map_or_else(g, f) on an opaque Result -> match(r, Ok -> f(payload), Err -> d)"""
+        base = path.rsplit("::", 1)[-1]
+        r = args[0]
+        if not isinstance(r, Poly):
+            return None
+        fnlike = lambda x: isinstance(x, tuple) and x and x[0] in ("closure", "fn")
+        try:
+            if base == "map_or" and len(args) == 3 and fnlike(args[2]):
+                return build_match(r, [(self.OK_KEY, self.apply(args[2], [app("payload0", r)])), (self.ERR_KEY, args[1])])
+            if base == "map_or_else" and len(args) == 3 and fnlike(args[1]) and fnlike(args[2]):
+                return build_match(r, [(self.OK_KEY, self.apply(args[2], [app("payload0", r)])), (self.ERR_KEY, self.apply(args[1], [app("payload0", r)]))])
+        except Unsupported:
+            return None
+        return None
+
+    def option_call(self, path, args):
+        if path and path.startswith("std::result::Result::<") and args:
+            return self.result_call(path, args)
+        if not path or not path.startswith("std::option::Option::<") or not args:
+            return None
+        base = path.rsplit("::", 1)[-1]
+        o = args[0]
+        is_opt = isinstance(o, tuple) and len(o) == 3 and o[0] == "opt"
+        if not is_opt and not isinstance(o, Poly):
+            return None
+        src, val = (o[1], o[2]) if is_opt else (o, app("payload0", o))
+        fnlike = lambda x: isinstance(x, tuple) and x and x[0] in ("closure", "fn")
+        try:
+            if base in ("as_ref", "as_mut", "as_deref", "as_deref_mut", "copied", "cloned") and is_opt and len(args) == 1:
+                return o
+            if base == "map" and len(args) == 2 and fnlike(args[1]):
+                return ("opt", src, self.apply(args[1], [val]))
+            if base == "unwrap_or" and len(args) == 2 and is_opt:
+                return build_match(src, [(self.SOME_KEY, val), (repr("None"), args[1])])
+            if base == "unwrap_or_else" and len(args) == 2 and fnlike(args[1]):
+                return build_match(src, [(self.SOME_KEY, val), (repr("None"), self.apply(args[1], []))])
+            if base == "map_or" and len(args) == 3 and fnlike(args[2]):
+                return build_match(src, [(self.SOME_KEY, self.apply(args[2], [val])), (repr("None"), args[1])])
+            if base == "map_or_else" and len(args) == 3 and fnlike(args[1]) and fnlike(args[2]):
+                return build_match(src, [(self.SOME_KEY, self.apply(args[2], [val])), (repr("None"), self.apply(args[1], []))])
+            if base in ("is_some", "is_none") and is_opt and len(args) == 1:
+                m = app("matches", src, self.SOME_KEY)
+                return m if base == "is_some" else app("not", m)
+        except Unsupported:
+            return None
+        return None
 
     def inline_body(self, body, args):
         e2 = {}
